@@ -535,6 +535,32 @@ def run_case(ctx, case):
                             ctx.violation('accepted-newer-field|%s|%06X' % (label.split('.')[0], newer[0]),
                                           'a KMIP %d.%d %s request carrying tag %06X (KMIP %d.%d) succeeded'
                                           % (v + (label, newer[0]) + tag_intro(newer[0])), {'request': data.hex()[:500]})
+                # fields of the request HEADER that later versions added (Attestation Capable Indicator 1.2, Client and Server
+                # Correlation Value 1.4), written into the header of a Create under every version: under an earlier one the
+                # request is not served (nothing is created)
+                for hlabel, item in (('Header.client_correlation_value', (0x420105, T.TEXT, 'client-corr-1')),
+                                     ('Header.server_correlation_value', (0x420106, T.TEXT, 'server-corr-1')),
+                                     ('Header.attestation_capable_indicator', (0x4200D3, T.BOOL, True))):
+                    for v in SUPPORTED:
+                        try:
+                            base_ = rig.encode_request(rig.build_request(v, [op_create(names=['c16-hdr-%s-%d%d' % (hlabel[-5:], v[0], v[1])])]), v)
+                        except Exception:
+                            continue
+                        tree = T.decode(base_, strict=False)
+                        hdr = T.kid(tree, T.T_REQUEST_HEADER)
+                        kids_ = list(hdr[2])
+                        kids_.insert(1, item)
+                        data = T.encode((tree[0], tree[1], [(hdr[0], hdr[1], kids_) if k is hdr else k for k in tree[2]]))
+                        before_ = len(srv.dump().get('managed_objects', []))
+                        r = srv.send_bytes(data, ident, strict_decode=False)
+                        ctx.ev()
+                        ctx.count('newer_field_requests')
+                        ctx.count('newer_header_field_requests')
+                        served = r.error is None and r.ok() or len(srv.dump().get('managed_objects', [])) != before_
+                        ctx.cell('newer-field', hlabel, '%d.%d' % v, 'newer' if tag_intro(item[0]) > v else 'plain', 'served' if served else 'refused')
+                        if tag_intro(item[0]) > v and served:
+                            ctx.violation('accepted-newer-field|%s|%06X' % (hlabel, item[0]), 'a KMIP %d.%d request whose header carries tag %06X '
+                                          '(KMIP %d.%d) was served' % (v + (item[0],) + tag_intro(item[0])), {'request': data.hex()[:500]})
                 # the same requests written by a NEWER client (so that the later-version fields are on the wire) under the
                 # header of every OLDER version of the same wire format: none may be served
                 gcm = cparams(cryptographic_algorithm=E.CryptographicAlgorithm.AES, block_cipher_mode=E.BlockCipherMode.GCM,
